@@ -658,6 +658,12 @@ def list_method(R, E, recv, name, args, kwargs, node):
     raise Unsupported("list.%s" % name)
 
 
+def deep_conc(x):
+    if isinstance(x, (tuple, list)):
+        return all(deep_conc(y) for y in x)
+    return conc(x) and not isinstance(x, (Obj, NdArr, Opaque))
+
+
 def py_less(R, E, a, b, node):
     """a < b for ints/reals/strings/tuples (lexicographic), as bool or z3 Bool"""
     if isinstance(a, tuple) and isinstance(b, tuple):
@@ -673,7 +679,7 @@ def py_less(R, E, a, b, node):
 
 def small_sort(R, E, items, node=None):
     """stable insertion sort of a short list whose comparisons may be symbolic (forks)"""
-    if all(conc(x) and not isinstance(x, (tuple, list)) for x in items):
+    if all(deep_conc(x) for x in items):
         try:
             return sorted(items)
         except TypeError:
@@ -921,6 +927,18 @@ def install(R):
             raise Unsupported("setattr with symbolic name")
         E.setattr(v, attr, val)
 
+    @reg("builtin.delattr")
+    def _delattr(E, v, attr):
+        if not conc(attr):
+            raise Unsupported("delattr with symbolic name")
+        if isinstance(v, Obj):
+            if attr not in v.fields:
+                E.raise_("AttributeError", None, "safety")
+            del v.fields[attr]
+            v.events.append(("del", attr))
+            return None
+        raise Unsupported("delattr on %r" % (v,))
+
     @reg("builtin.callable")
     def _callable(E, v):
         if isinstance(v, (Closure, LambdaFn, ExternFn, PyFn, BoundMethod, RepoClass)):
@@ -1035,7 +1053,7 @@ def install(R):
             if r is not None:
                 return r
         items = E.iterate_concrete(v)
-        if key is None and all(conc(x) and not isinstance(x, (Obj, NdArr)) for x in items):
+        if key is None and all(deep_conc(x) for x in items):
             try:
                 return sorted(items, reverse=bool(reverse))
             except TypeError:
